@@ -36,9 +36,9 @@ require (
 	storj.io/drpc v0.0.0-00010101000000-000000000000
 )
 
-replace storj.io/drpc => /repo
+replace storj.io/drpc => ` + repoRoot + `
 `
-	sum, err := os.ReadFile("/repo/internal/integration/go.sum")
+	sum, err := os.ReadFile(repoRoot + "/internal/integration/go.sum")
 	if err != nil {
 		return "", err
 	}
